@@ -3,7 +3,12 @@
 (* of a complete paragraph P, of a following text D (spans already shifted by       *)
 (* Len(P)) and of P \o D, all rules on.  The lints of the whole must be exactly the  *)
 (* lints of P plus the shifted lints of D (as multisets).                            *)
-EXTENDS Naturals, Sequences, FiniteSets, Json, IOUtils, TLC
+(* Seg{kinds[], chunks[], sentences[], paragraphs[]}: the kinds of a document's       *)
+(* tokens (letters of SegmentsOps) and the slices iter_chunks / iter_sentences /      *)
+(* iter_paragraphs returned.  Property level: each is a partition of the token list   *)
+(* and nothing continues across a paragraph break; algorithm level (drift): the       *)
+(* slices are those of SegmentsOps!Split.                                             *)
+EXTENDS SegmentsOps, Json, IOUtils, TLC
 
 Rec == ndJsonDeserialize(IOEnv.TRACE)
 VARIABLES l
@@ -17,6 +22,12 @@ Check(e) ==
          ELSE IF \E x \in Elems(e.lp) \cup Elems(e.ld) : Count(e.lpd, x) < Count(e.lp, x) + Count(e.ld, x)
               THEN PrintT(<<"REJECT", l, "lint-lost-or-moved-when-paragraphs-are-joined">>)
          ELSE PrintT(<<"REJECT", l, "extra-lint-when-paragraphs-are-joined">>)
+    [] e.ev = "Seg" ->
+         LET bad == {w \in {"chunks", "sentences", "paragraphs"} : ~PropertyOk(e.kinds, e[w])}
+             off == {w \in {"chunks", "sentences", "paragraphs"} : e[w] # Split(e.kinds, TermOf(w))}
+         IN IF bad # {} THEN PrintT(<<"REJECT", l, "cut-is-not-a-partition-closed-at-paragraph-breaks">>)
+            ELSE IF off # {} THEN PrintT(<<"DRIFT", l, "cut">>)
+            ELSE TRUE
     [] e.ev = "PairPanic" -> TRUE     \* C01 decides panics
     [] OTHER -> PrintT(<<"REJECT", l, "unknown-event">>)
 
